@@ -7,6 +7,7 @@ import Pdpy11.Driver.Directive
 import Pdpy11.Driver.Dec
 import Pdpy11.Driver.Container
 import Pdpy11.Driver.Listing
+import Pdpy11.Driver.Parse
 namespace Pdpy11.Driver
 
 def handle (line : String) : String :=
@@ -31,6 +32,7 @@ def handle (line : String) : String :=
     | "wavread" => handleWavRead args
     | "lst" => handleLst args
     | "lstpath" => handleLstPath args
+    | "parse" => handleParse args
     | "ping" => "pong"
     | _ => "bad-op"
 
